@@ -1,4 +1,4 @@
 """fail-closed python-ast -> Gallina translators; ALL maps Gen file name -> function returning Coq text."""
-from vlib.translators import layout
+from vlib.translators import layout, fromi
 
-ALL = {"GenLayout": layout.translate}
+ALL = {"GenLayout": layout.translate, "GenFromI": fromi.translate}
